@@ -75,7 +75,7 @@ class C04(Check):
         out = []
         for eol in ("LF", "CRLF"):
             for fnl in (True, False):
-                for desc in (False, True):
+                for desc in (False, True, " ", "\t", " desc with trailing blank "):
                     for first in range(3):
                         out.append(("single", eol, fnl, desc, first, b["single_len"]))
                     out.append(("pair", eol, fnl, desc, b["pair_len"]))
@@ -89,7 +89,7 @@ class C04(Check):
     def check_file(self, records, eol, fnl, desc, buffers, ctx):
         """records: list of (name, seq, width)"""
         eolb = b"\r\n" if eol == "CRLF" else b"\n"
-        data, exp = fm.make_fasta(records, eolb, fnl, desc)
+        data, exp = fm.make_fasta(records, eolb, fnl, desc.encode() if isinstance(desc, str) else desc)
         seqs = {n: s for n, s, _ in records}
         tag = "" if fnl else "/no-final-newline"
         nontriv = (
